@@ -193,30 +193,59 @@ def check_exit_status(chk, prog, model):
             last_exit = st_
     if last_exit is None:
         raise AnalysisBroken('jwt-verify main: final exit/return not found')
-    arg = last_exit['inner'][1] if last_exit.get('kind') == 'CallExpr' else last_exit['inner'][0]
-    refs = [x for x in walk(arg) if x.get('kind') == 'DeclRefExpr' and x['referencedDecl'].get('kind') == 'VarDecl']
-    ids = set(x['referencedDecl']['id'] for x in refs)
+    # the failure counter: the variable that accumulates process_one() results
+    cid = cname = None
+    for x in walk(body):
+        if x.get('kind') == 'CompoundAssignOperator' and x.get('opcode') == '+=':
+            r_ = _strip(x['inner'][1])
+            l_ = _strip(x['inner'][0])
+            if r_.get('kind') == 'CallExpr' and _strip(r_['inner'][0]).get('referencedDecl', {}).get('name') == 'process_one' \
+                    and l_.get('kind') == 'DeclRefExpr':
+                cid, cname = l_['referencedDecl']['id'], l_['referencedDecl'].get('name')
+    if cid is None:
+        raise AnalysisBroken('jwt-verify: no "counter += process_one(...)" found')
+    # the tail of main: the top-level statements after the last one that processes tokens, up to the final exit/return
+    top = body.get('inner', [])
+    last_proc = max(i_ for i_, st_ in enumerate(top)
+                    if any(y.get('kind') == 'CallExpr' and _strip(y['inner'][0]).get('referencedDecl', {}).get('name') == 'process_one'
+                           for y in walk(st_)))
+    tail = top[last_proc + 1:]
     n = 0
     bad = 0
-    if len(ids) != 1:
-        raise AnalysisBroken('jwt-verify: exit status expression does not depend on exactly one counter (%d variables)' % len(ids))
-    cid = ids.pop()
-    cname = refs[0]['referencedDecl'].get('name')
-    # (a) value of the exit expression for representative failure counts
+    # (a) process status for representative failure counts: the tail is interpreted with the counter set to k
     for k in (0, 1, 2, 3, 127, 128, 254, 255, 256, 257, 511, 512, 513, 768, 65535, 65536, 65537, (1 << 31) - 1):
         n += 1
-        it = Interp(prog, unit, model=model)
+        seen = []
+
+        def h_exit(it, st, args, node):
+            seen.append(args[0] if args else None)
+            return []
+        it = Interp(prog, unit, model=model, hooks={'exit': h_exit, '_exit': h_exit})
         st = State()
         st.mem[(('var', unit, cid, cname), '')] = Int(k)
-        r = it.ev(arg, st)
-        vals = set(v.v if isinstance(v, Int) else None for s, v in r)
-        for v in vals:
+        states = [st]
+        for stmt in tail:
+            nxt = []
+            for s_ in states:
+                for s2, ctrl in it.exec_stmt(stmt, s_):
+                    if ctrl is not None and isinstance(ctrl, tuple) and ctrl and ctrl[0] == 'return':
+                        seen.append(ctrl[1])
+                    elif not s2.dead:
+                        nxt.append(s2)
+            states = nxt
+        if not seen:
+            raise AnalysisBroken('jwt-verify main: the tail after token processing reaches no exit()/return')
+        for v in seen:
+            v = v.v if isinstance(v, Int) else None
             status = None if v is None else (v & 0xff)
             if v is None or (k == 0) != (status == 0) or (k == 0 and v != 0):
                 bad += 1
                 chk.add(Finding('C20.exit-status', unit, 'main', 'wraps[%d]' % k if k else 'zero',
-                                'with %d failed tokens the exit expression is %s, i.e. process status %s: status must be 0 exactly when no token failed'
+                                'with %d failed tokens main exits with %s, i.e. process status %s: status must be 0 exactly when no token failed'
                                 % (k, v, status), line=last_exit.get('_l')))
+    # only the part of main up to and including token processing is subject to (b); what the tail does to the counter is covered by (a)
+    body = dict(body)
+    body['inner'] = top[:last_proc + 1]
     # (b) the counter starts at 0 and only grows by the 0/1 result of process_one
     assigns = []
     for x in walk(body):
